@@ -3,6 +3,7 @@ package sim
 // C09 (all-to-one collector) — votes form a QC exactly when a quorum voted for that block.
 
 import (
+	"bytes"
 	"fmt"
 	"runtime"
 	"sort"
@@ -298,7 +299,7 @@ func c09Prop(c c09Case) common.Result {
 			}
 		}
 		if expectQC && nB1 == 0 && nOther == 0 {
-			return common.Fail("qc-missing", "a quorum of valid votes for the block has arrived but no certificate was produced\n%s", desc)
+			return common.Fail("qc-missing", "a quorum of valid votes for the block has arrived but no certificate was produced\n%s%s", desc, diagnoseC09(c))
 		}
 		if (expectQC || nOther > 0) && formedAt < 0 {
 			formedAt = step // from here on the block is no longer newer than the collector's high QC: the premise of the property ends
@@ -365,4 +366,25 @@ func TestC09VotingMachine(t *testing.T) {
 // TestC09RaceVotingMachine runs the same property with concurrent vote verification (the production default) under -race.
 func TestC09RaceVotingMachine(t *testing.T) {
 	common.Check(t, "C09", "TestC09RaceVotingMachine", 800, 12000, genC09(true), c09Prop)
+}
+
+var diagnosing bool
+
+// diagnoseC09 re-runs a failing case once in the same process with the replicas' debug log captured: the report then says
+// whether the failure repeats (state of the case) or not (state outside the case), and what the collector logged.
+func diagnoseC09(c c09Case) string {
+	if diagnosing {
+		return ""
+	}
+	diagnosing = true
+	defer func() { diagnosing = false }()
+	var buf bytes.Buffer
+	kit.Capture = &buf
+	r := c09Prop(c)
+	kit.Capture = nil
+	log := buf.String()
+	if len(log) > 6000 {
+		log = log[len(log)-6000:]
+	}
+	return fmt.Sprintf("\n--- diagnosis: the same case run again in this process: fails again=%v (%s); goroutines=%d\n--- debug log of that second run (tail):\n%s", r.Err != "", r.Fingerprint, runtime.NumGoroutine(), log)
 }
